@@ -48,9 +48,13 @@ type c36Sub struct {
 
 type c36Repo struct {
 	Name, URL, CommitTpl, FileTpl, LineTpl kit.Text
-	Branches                               []c36Branch
-	Subs                                   []c36Sub `json:",omitempty"`
-	Docs                                   []c36Doc
+	// ViaMeta: the repository metadata is delivered through the "<shard>.meta"
+	// sidecar (which nothing validates) instead of the shard itself. Templates
+	// the shard builder refuses (they do not parse) always travel that way.
+	ViaMeta  bool `json:",omitempty"`
+	Branches []c36Branch
+	Subs     []c36Sub `json:",omitempty"`
+	Docs     []c36Doc
 }
 
 type c36Param struct{ K, V kit.Text }
@@ -170,6 +174,28 @@ var urlPayloads = []string{
 	`ftp://example.com/M`,
 	`https://example.com/M" onclick="M`,
 	"https://example.com/\xffM",
+	// script-capable schemes that "name a host": //host/ is a JS comment, %0A ends it
+	`javascript://example.com/%0AM`,
+	`JaVaScRiPt://example.com/%0aM//`,
+	` javascript://example.com/%0AM`,
+	"\tjavascript://example.com/%0DM",
+	"\x1fjavascript://user@example.com:80/%0AM?a=b#c",
+	"java\rscript://example.com/%E2%80%A8M",
+	`javascript:/*M*/M`,
+	`javascript:%0AM`,
+	`vbscript://example.com/%0AM`,
+	`VBScript:M`,
+	`data://example.com/text/html,<script>M</script>`,
+	`data:text/html;charset=utf-8;base64,M`,
+	` data:image/svg+xml,<svg onload=M>`,
+	`blob:https://example.com/M`,
+	`view-source:javascript:M`,
+	`feed:javascript:M`,
+	// location schemes that merely are not http(s)
+	`ssh://git@example.com/M.git`,
+	`git://example.com/M`,
+	`file:///etc/M`,
+	`x-handler://example.com/M`,
 }
 
 func fill(p, m string) string { return strings.ReplaceAll(p, "M", m) }
@@ -208,6 +234,35 @@ var fileTpls = []string{
 	`https://example.com/zqktz/{{index .Path 99999}}`,
 	`{{.Version.X}}/{{.Path}}`,
 	`{{template "nope" .}}`,
+}
+
+// brokenTpls do not even parse. The shard builder rejects them, but nothing
+// validates the metadata of a "<shard>.meta" sidecar, a foreign shard or a
+// remote searcher, so the server has to cope with them.
+var brokenTpls = []string{
+	`https://example.com/zqktz/{{.Version`,
+	`{{.Version}`,
+	`{{.Path}`,
+	`{{if .Version}}zqktz`,
+	`{{.Version | nosuchfunc}}`,
+	`{{end}}`,
+	`{{"zqktz}}`,
+	`{{range}}`,
+	`zqktz/{{.Path}}{{`,
+	`{{template}}`,
+	`{{ URLJoinPath "https://example.com/zqktz" .Version .Path`,
+	`{{/* zqktz`,
+	`{{$x}}`,
+	`#L{{.LineNumber`,
+	`{{.LineNumber | }}`,
+	`{{.Name}}:{{.Version}}{{else}}`,
+	"{{.Version\n}}{{",
+}
+
+// unparsable reports whether the shard builder would refuse the template.
+func unparsable(t string) bool {
+	_, err := index.ParseTemplate(t)
+	return err != nil
 }
 
 // failingTpl reports whether a URL template of the pools cannot be executed.
@@ -281,6 +336,19 @@ func genRepo(g kit.G, idx int) c36Repo {
 	r.CommitTpl = kit.Text(kit.Pick(g, commitTpls, "ctpl"))
 	r.FileTpl = kit.Text(kit.Pick(g, fileTpls, "ftpl"))
 	r.LineTpl = kit.Text(kit.Pick(g, lineTpls, "ltpl"))
+	// metadata that never went through the shard builder's validation
+	r.ViaMeta = g.Bool(30, "via-meta")
+	if r.ViaMeta {
+		if g.Bool(45, "ctpl-broken") {
+			r.CommitTpl = kit.Text(kit.Pick(g, brokenTpls, "ctpl-b"))
+		}
+		if g.Bool(35, "ftpl-broken") {
+			r.FileTpl = kit.Text(kit.Pick(g, brokenTpls, "ftpl-b"))
+		}
+		if g.Bool(35, "ltpl-broken") {
+			r.LineTpl = kit.Text(kit.Pick(g, brokenTpls, "ltpl-b"))
+		}
+	}
 	nb := g.Int(0, 3, "nbranch")
 	for i := 0; i < nb; i++ {
 		b := c36Branch{}
@@ -304,12 +372,19 @@ func genRepo(g kit.G, idx int) c36Repo {
 		r.Branches = append(r.Branches, b)
 	}
 	if g.Int(0, 9, "subrepo") == 6 {
-		r.Subs = append(r.Subs, c36Sub{
+		sub := c36Sub{
 			Path:    "sub",
 			Name:    kit.Text("sub/" + genPayload(g, srcSubRepo, "subname")),
 			FileTpl: kit.Text(kit.Pick(g, fileTpls, "sub-ftpl")),
 			LineTpl: kit.Text(kit.Pick(g, lineTpls, "sub-ltpl")),
-		})
+		}
+		if r.ViaMeta && g.Bool(30, "sub-ftpl-broken") {
+			sub.FileTpl = kit.Text(kit.Pick(g, brokenTpls, "sub-ftpl-b"))
+		}
+		if r.ViaMeta && g.Bool(30, "sub-ltpl-broken") {
+			sub.LineTpl = kit.Text(kit.Pick(g, brokenTpls, "sub-ltpl-b"))
+		}
+		r.Subs = append(r.Subs, sub)
 	}
 	nd := g.Int(1, 4, "ndocs")
 	for i := 0; i < nd; i++ {
@@ -533,7 +608,22 @@ func buildC36(c *c36Case, dir string) (zoekt.Streamer, error) {
 				}
 			}
 		}
-		b, err := index.NewShardBuilder(zr)
+		// what the indexer wrote: the shard builder refuses templates that do
+		// not parse (the top repository's; it does not look at sub-repositories)
+		built := *zr
+		if r.ViaMeta {
+			// everything the sidecar carries is absent from the shard proper
+			built.URL, built.CommitURLTemplate, built.FileURLTemplate, built.LineFragmentTemplate = "", "", "", ""
+			if len(zr.SubRepoMap) > 0 {
+				built.SubRepoMap = map[string]*zoekt.Repository{}
+				for k, v := range zr.SubRepoMap {
+					sv := *v
+					sv.FileURLTemplate, sv.LineFragmentTemplate = "", ""
+					built.SubRepoMap[k] = &sv
+				}
+			}
+		}
+		b, err := index.NewShardBuilder(&built)
 		if err != nil {
 			return nil, fmt.Errorf("NewShardBuilder: %w", err)
 		}
@@ -553,8 +643,35 @@ func buildC36(c *c36Case, dir string) (zoekt.Streamer, error) {
 		if err := b.Write(&buf); err != nil {
 			return nil, err
 		}
-		if err := os.WriteFile(filepath.Join(dir, fmt.Sprintf("c36-%d_v16.00000.zoekt", ri)), buf.Bytes(), 0o644); err != nil {
+		shard := filepath.Join(dir, fmt.Sprintf("c36-%d_v16.00000.zoekt", ri))
+		if err := os.WriteFile(shard, buf.Bytes(), 0o644); err != nil {
 			return nil, err
+		}
+		if r.ViaMeta {
+			// the metadata is replaced without re-indexing, the way zoekt's own
+			// tools do it: "<shard>.meta", written to a temporary file and renamed
+			repos, md, err := index.ReadMetadataPath(shard)
+			if err != nil || len(repos) != 1 {
+				return nil, fmt.Errorf("ReadMetadataPath: %d repositories, %v", len(repos), err)
+			}
+			m := repos[0]
+			m.URL, m.CommitURLTemplate, m.FileURLTemplate, m.LineFragmentTemplate = zr.URL, zr.CommitURLTemplate, zr.FileURLTemplate, zr.LineFragmentTemplate
+			for k, v := range zr.SubRepoMap {
+				if sm := m.SubRepoMap[k]; sm != nil {
+					sm.FileURLTemplate, sm.LineFragmentTemplate = v.FileURLTemplate, v.LineFragmentTemplate
+				}
+			}
+			var payload any = m
+			if md.IndexFormatVersion >= 17 {
+				payload = repos
+			}
+			tmp, final, err := index.JsonMarshalRepoMetaTemp(shard, payload)
+			if err != nil {
+				return nil, err
+			}
+			if err := os.Rename(tmp, final); err != nil {
+				return nil, err
+			}
 		}
 	}
 	return search.NewDirectorySearcher(dir)
@@ -728,10 +845,11 @@ type pageResult struct {
 	inName   bool
 }
 
-// dangerousScheme reports whether a browser would run the URL as a script or
-// as a document in the page's origin.
-func dangerousScheme(v string) (string, bool) {
-	// URL parsing: strip leading/trailing C0 control or space, remove tab and newlines anywhere
+// urlScheme is the scheme a browser sees in an attribute value ("" = a
+// relative reference): leading / trailing C0 controls and spaces are stripped,
+// tab, CR and LF are dropped wherever they stand, the scheme is
+// case-insensitive.
+func urlScheme(v string) string {
 	v = strings.TrimFunc(v, func(r rune) bool { return r <= 0x20 })
 	v = strings.Map(func(r rune) rune {
 		if r == '\t' || r == '\n' || r == '\r' {
@@ -742,21 +860,24 @@ func dangerousScheme(v string) (string, bool) {
 	v = strings.ToLower(v)
 	i := strings.IndexAny(v, ":/?#")
 	if i <= 0 || v[i] != ':' {
-		return "", false
+		return ""
 	}
 	sc := v[:i]
 	for j, r := range sc {
 		ok := r >= 'a' && r <= 'z' || j > 0 && (r >= '0' && r <= '9' || r == '+' || r == '-' || r == '.')
 		if !ok {
-			return "", false
+			return ""
 		}
 	}
-	switch sc {
-	case "javascript", "data", "vbscript", "livescript", "mocha", "jar", "blob", "filesystem", "view-source":
-		return sc, true
-	}
-	return sc, false
+	return sc
 }
+
+// safeSchemes are the schemes a link filled from index or request data may
+// have: the ones html/template lets through. None of them runs script or
+// renders a document in the page's origin. Everything else (javascript, data,
+// vbscript, blob, ... in whatever spelling, with or without a host part) must
+// have been replaced by the sanitiser's placeholder.
+var safeSchemes = map[string]bool{"http": true, "https": true, "mailto": true}
 
 func srcOf(marker string) string { return marker[3:4] }
 
@@ -831,13 +952,16 @@ func checkHTML(sh *pageShape, body []byte) (*pageResult, error) {
 						return p, kit.Fail("foreign-attr-value", "<%s %s=%q>: neither a literal value of a template nor an instance of a dynamic one", tag, a.Key, a.Val)
 					}
 					if urlAttrs[a.Key] {
-						if pref == "" {
-							if sc, bad := dangerousScheme(a.Val); bad {
-								return p, kit.Fail("script-url", "<%s %s=%q>: scheme %s comes from index or request data", tag, a.Key, a.Val, sc)
+						// the scheme of a link is the template's only when its colon
+						// stands in the template's literal text
+						if sc := urlScheme(a.Val); sc != "" && len(sc) >= len(pref) {
+							if !safeSchemes[sc] {
+								return p, kit.Fail("script-url", "<%s %s=%q>: scheme %q comes from index or request data; only http, https, mailto, relative references and the sanitiser's #ZgotmplZ are harmless", tag, a.Key, a.Val, sc)
 							}
-							if strings.HasPrefix(a.Val, "#ZgotmplZ") {
-								p.labels = append(p.labels, "url:filtered-by-html/template")
-							}
+							p.labels = append(p.labels, "url:data-scheme-"+sc)
+						}
+						if pref == "" && strings.HasPrefix(a.Val, "#ZgotmplZ") {
+							p.labels = append(p.labels, "url:filtered-by-html/template")
 						}
 						p.reach(a.Val, "url")
 						if tag == "a" && a.Key == "href" {
@@ -1211,6 +1335,23 @@ func runC36(rec *kit.Recorder, shape *pageShape, c c36Case) error {
 		if failingTpl(string(r.FileTpl)) || failingTpl(string(r.LineTpl)) {
 			rec.Label("repo:file-or-line-template-fails-at-execute")
 		}
+		if r.ViaMeta {
+			rec.Label("repo:metadata-from-meta-sidecar")
+		}
+		if unparsable(string(r.CommitTpl)) {
+			rec.Label("repo:commit-template-unparsable")
+			if len(r.Branches) > 0 {
+				rec.Label("repo:commit-template-unparsable-with-branches")
+			}
+		}
+		if unparsable(string(r.FileTpl)) || unparsable(string(r.LineTpl)) {
+			rec.Label("repo:file-or-line-template-unparsable")
+		}
+		for _, sr := range r.Subs {
+			if unparsable(string(sr.FileTpl)) || unparsable(string(sr.LineTpl)) {
+				rec.Label("repo:subrepo-template-unparsable")
+			}
+		}
 	}
 	if e.commitTplFails {
 		rec.Label("repo:commit-template-fails-at-execute")
@@ -1258,12 +1399,13 @@ func runC36(rec *kit.Recorder, shape *pageShape, c c36Case) error {
 func TestVerif_C36(t *testing.T) {
 	log.SetOutput(io.Discard) // the server logs template problems of the index; not part of the response
 	rec := kit.Open(t, "C36",
-		"rapid-generated indexes (1-3 repositories with 1-4 documents; contents, file names, repository / sub-repository / branch names, versions, languages and repository URLs are HTML, JS, URL and template break-out payloads around a per-source marker, incl. invalid UTF-8 and control bytes; file / commit / line-fragment URL templates from a pool that substitutes index values at every position) served by web.Server (Print on and off) and 10-16 requests per index against /search (hits, no hits, parse errors, num / ctx / debug / order extremes and payloads, repository lists), /print, /, /about, plus up to 3 followed print? / search? links per page; a case = one HTTP response; non-trivial = markers reached >= 2 distinct contexts (text node, attribute value, URL attribute, <script>, event handler) of that page; distinct by hash of index + request target",
+		"rapid-generated indexes (1-3 repositories with 1-4 documents; contents, file names, repository / sub-repository / branch names, versions, languages and repository URLs are HTML, JS, URL and template break-out payloads around a per-source marker, incl. invalid UTF-8 and control bytes; repository URLs, versions, branch and file names also spell script-capable schemes in every way a browser accepts: javascript: / vbscript: / data: / blob: bare and with a host part (javascript://host/%0A...), mixed case, leading space / control bytes, embedded tab / CR / LF, next to non-http location schemes (ssh, git, file, ftp); file / commit / line-fragment URL templates from a pool that substitutes index values at every position, incl. templates that fail when executed; 30% of the repositories get their metadata through the unvalidated <shard>.meta sidecar (index.JsonMarshalRepoMetaTemp + rename), and there the commit / file / line-fragment templates of the repository and its sub-repository may not even parse) served by web.Server (Print on and off) and 10-16 requests per index against /search (hits, no hits, parse errors, num / ctx / debug / order extremes and payloads, repository lists), /print, /, /about, plus up to 3 followed print? / search? links per page; a case = one HTTP response; non-trivial = markers reached >= 2 distinct contexts (text node, attribute value, URL attribute, <script>, event handler) of that page; distinct by hash of index + request target",
 		"URL templates are operator configuration: their literal text is harmless; only the substituted path / version / branch / line number are index data",
 		"a response is an HTML page if its Content-Type (declared, else sniffed as net/http does) is HTML or XML; everything else must be text/plain with nosniff when it carries index data",
 		"status 418 with a text/plain nosniff body is the UI's error path (bad query, bad ctx / order, unknown file); a template execution error on that path counts as a rendering failure",
 		"allowed tags, attributes, literal attribute values, <style> bodies and the code of scripts and event handlers outside string literals are exactly those written in web.TemplateText",
-		"a URL attribute that a template fills completely from data must not have a scheme a browser executes or renders in the page origin (javascript, data, vbscript, ...), after the browser's URL clean-up (strip C0/space, drop tab/CR/LF)",
+		"a URL attribute (href, src, action, ...) whose scheme comes from data (its colon is not inside the template's literal text) must have the scheme http, https or mailto, be a relative reference, or be the sanitiser's #ZgotmplZ, judged after the browser's URL clean-up (strip C0/space, drop tab/CR/LF, ignore case); any other scheme counts as script-capable (an allow-list: javascript://host/ has a host and is still script)",
+		"metadata that does not come from the shard builder (.meta sidecar, foreign shard, remote searcher) is index data like any other: templates that do not parse must leave every valid request answered with a page (a panic in the handler, a non-200 status or the 418 error path is a rendering failure)",
 		"documents never place a file outside its sub-repository path (ShardBuilder.Add states that precondition but only checks it loosely)",
 	)
 	shape, err := harvestShape()
